@@ -272,7 +272,7 @@ class Gen:
         if node.allnum():
             choices += ['arith_c', 'arith_c', 'unary_num', 'nvl', 'zip_arith', 'zip_arith', 'mod_c']
             if not preserve:
-                choices += ['round', 'power', 'ceilfloor']
+                choices += ['round', 'power', 'ceilfloor', 'irr']
             if mono and not preserve:
                 choices += ['cmp_c', 'between', 'in', 'isnull', 'zip_cmp']
         elif mono and mt == ['String']:
@@ -475,6 +475,21 @@ class Gen:
             val = r.choice(ID_INT) if t == 'Integer' else r.choice(ID_STR)
             return Node('%s[sub %s = %s]' % (v, i, vtl_const(val)), '(sub %s ((%s %s)))' % (sx, name_sx(i), enc_value(val)),
                         [x for x in node.ids if x[0] != i], ms, node.ops + ('sub',))
+        if k == 'irr':
+            # irrational numeric functions: the model evaluates the operand exactly; the harness applies the
+            # function in floating point to the model's operand values (see runner.compare, case['post'])
+            f = r.choice(['sqrt', 'exp', 'ln', 'log', 'powf'])
+            if f == 'log':
+                base = r.choice([2, 10, 3])
+                vt, post = 'log(%s, %d)' % (v, base), ['log', base]
+            elif f == 'powf':
+                ex = r.choice([Fraction(1, 2), Fraction(3, 2), Fraction(-1, 2), Fraction(5, 2)])
+                vt, post = 'power(%s, %s)' % (v, vtl_const(ex)), ['powf', float(ex)]
+            else:
+                vt, post = '%s(%s)' % (f, v), [f]
+            n = Node(vt, sx, node.ids, [(nm, 'Number') for nm, _ in ms], node.ops + ('irr_' + f,))
+            n.post = post
+            return n
         if k == 'ifd':
             # dataset-level if-then-else: the condition refers to components of a condition dataset
             # (`DS#comp`, the form the engine supports); then/else are datasets with the structure of `node`
@@ -544,6 +559,8 @@ class Gen:
         self.max_meas = max(getattr(self, 'max_meas', 0), len(node.meas))
         for i in range(depth):
             nxt = None
+            if getattr(node, 'post', None):
+                break
             node = self.mat(node)
             for _ in range(6):
                 nxt = self.step(env, node, depth - i - 1, kinds=kinds if i == depth - 1 else None)
@@ -564,6 +581,7 @@ class Gen:
         vtl = 'DS_r <- %s;' % node.vtl
         script = ' '.join(self.stmts + [vtl])
         return {'family': fam, 'env': env, 'vtl': script, 'sx': node.sx, 'ops': list(node.ops), 'max_meas': self.max_meas,
+                'post': getattr(node, 'post', None),
                 'ids': node.ids, 'meas': node.meas, 'flat': self.flat, 'depth': len(node.ops)}
 
 
